@@ -144,6 +144,10 @@ func FillRandom(p []byte, n int) {
 // later clock reading; natively the harness simply runs that fast).
 func ShortScenario(base time.Time, d time.Duration) {}
 
+// AppendSpare(k): from here on a reallocating append may return up to k spare slots of capacity (the Go runtime rounds
+// capacities up to size classes). Engine directive; natively the real runtime decides.
+func AppendSpare(k int) {}
+
 func Assume(b bool) {
 	if !b {
 		panic("vf.Assume violated natively: model does not satisfy harness assumption")
